@@ -15,17 +15,18 @@ func runeT(ch byte) *Sexp {
 }
 
 type gramGen struct {
-	rng        *rand.Rand
-	nRules     int
-	alphabet   []byte
-	nextMemo   int
-	subMemo    float64 // probability of memoizing a sub-term
-	nameAlts   bool    // every Any/Choice carries a Name
-	noRefs     bool
-	forbidRef  map[int]bool
-	upwardRef  int // if >= 0: only refs to rules with a larger index than this (left-recursion-free by construction)
-	nameCount  int
-	noSuppress bool
+	rng          *rand.Rand
+	nRules       int
+	alphabet     []byte
+	nextMemo     int
+	subMemo      float64 // probability of memoizing a sub-term
+	nameAlts     bool    // every Any/Choice carries a Name
+	noRefs       bool
+	forbidRef    map[int]bool
+	upwardRef    int // if >= 0: only refs to rules with a larger index than this (left-recursion-free by construction)
+	nameCount    int
+	noSuppress   bool
+	noNameSingle bool
 }
 
 func (g *gramGen) ch() byte { return g.alphabet[g.rng.Intn(len(g.alphabet))] }
@@ -118,6 +119,9 @@ func (g *gramGen) term(depth int) *Sexp {
 	case r < 96:
 		return LA("opt", g.term(depth-1))
 	case r < 98:
+		if g.noNameSingle {
+			return g.ref()
+		}
 		g.nameCount++
 		return LA("name", HS("m"+strconv.Itoa(g.nameCount)), g.term(depth-1))
 	case r < 99:
@@ -126,6 +130,9 @@ func (g *gramGen) term(depth int) *Sexp {
 		}
 		return LA("suppress", g.term(depth-1))
 	default:
+		if g.noNameSingle {
+			return LA("empty")
+		}
 		return LA("single", g.term(depth-1))
 	}
 }
@@ -343,19 +350,20 @@ func wellFormed(env []*Sexp, root *Sexp, all bool) bool {
 }
 
 type genOpts struct {
-	nameAlts   bool
-	lrf        bool // left-recursion-free (C03)
-	subMemo    float64
-	sentence   float64
-	maxRules   int
-	noSuppress bool
-	productive float64 // probability of insisting on a grammar without unproductive nonterminals
+	nameAlts     bool
+	lrf          bool // left-recursion-free (C03)
+	subMemo      float64
+	sentence     float64
+	maxRules     int
+	noSuppress   bool
+	noNameSingle bool
+	productive   float64 // probability of insisting on a grammar without unproductive nonterminals
 }
 
 func genCertified(rng *rand.Rand, o genOpts) genGrammar {
 	for try := 0; try < 200; try++ {
 		nRules := 1 + rng.Intn(o.maxRules)
-		g := &gramGen{rng: rng, nRules: nRules, alphabet: []byte("ab"), nextMemo: nRules, subMemo: o.subMemo, nameAlts: o.nameAlts, upwardRef: -1, noSuppress: o.noSuppress}
+		g := &gramGen{rng: rng, nRules: nRules, alphabet: []byte("ab"), nextMemo: nRules, subMemo: o.subMemo, nameAlts: o.nameAlts, upwardRef: -1, noSuppress: o.noSuppress, noNameSingle: o.noNameSingle}
 		if rng.Intn(3) == 0 {
 			g.alphabet = []byte("abc")
 		}
